@@ -1,7 +1,10 @@
 (* C18.v — Go arrays and maps crossing the API are copied, never aliased
    Statements only: every theorem is closed by [exact] of a lemma proved elsewhere, and its
-   axioms are printed.  Generated once by tools/mkprop.py from the proved lemmas' statements. *)
-From Verif Require Import Base Sorter Value Seq Coll Pool PoolFrame.
+   axioms are printed.  Generated once by tools/mkprop.py from the proved lemmas' statements. 
+   Round 2 (polish): [Example]s of non-vacuity (data in PoolFrame2.v: a history in which a Go slice is written after
+   the constructors copied it, returned arrays are written, the collection is mutated) and, from
+   C18_new_object_is_appended on, the frame theorem stated per API entry point (PoolFrame2.v). *)
+From Verif Require Import Base Sorter Value Seq Coll Pool PoolFrame PoolFrame2.
 
 Theorem C18_step_changes_only_its_receiver :
   forall (zero : val) (p : pool) (o : op) (p' : pool) (r : ret),
@@ -10,10 +13,27 @@ Theorem C18_step_changes_only_its_receiver :
          (forall i : nat, (i < length p)%nat -> writes o <> Some i -> nth i p' ODead = nth i p ODead).
 Proof. exact step_frame. Qed.
 
+(* non-vacuity: the history ex_alias_ops — a Go slice [1;2;3]; a List, a Set and a Stack constructed from it (slots 1-3);
+   the caller's slice is then overwritten at every position; AsArray of the list (slot 4) is written; the list is
+   mutated; GetValues (slot 5) and RemoveValues (slot 6) results; a returned Array is written; AppendValues with the
+   receiver as its own operand.  The collections still hold 1,2,3 after the slice became 7,8,9, the returned arrays are
+   not affected by later mutation of the list and vice versa. *)
+Example C18_history_example :
+  run (wi 0) [] ex_alias_ops =
+    [OSlice [wi 7; wi 8; wi 9]; OLst [wi 3; wi 4; wi 3; wi 4]; OSet 0 [wi 1; wi 2; wi 3]; OStk 16 [wi 1; wi 2; wi 3];
+     OSlice [wi 5; wi 2; wi 3]; OArr [wi 0; wi 2]; OArr [wi 1; wi 2]].
+Proof. vm_compute; reflexivity. Qed.
+
 Theorem C18_failed_call_changes_nothing :
   forall (zero : val) (p : pool) (o : op) (p' : pool) (r : ret),
          step zero p o = (p', r) -> r = RPanic \/ r = RHang \/ r = RBad -> p' = p.
 Proof. exact step_panic_frame. Qed.
+
+Example C18_failed_call_changes_nothing_example :
+  step (wi 0) [OLst [wi 1; wi 2]; OSlice [wi 1]] (SetValues 0 2 0) = ([OLst [wi 1; wi 2]; OSlice [wi 1]], RPanic) /\
+  step (wi 0) [OLst [wi 1; wi 2]; OSlice [wi 1]] (GetValues 0 2 5) = ([OLst [wi 1; wi 2]; OSlice [wi 1]], RPanic) /\
+  step (wi 0) [OLst [wi 1; wi 2]; OSlice [wi 1]] (InsertValue 1 0 (wi 3)) = ([OLst [wi 1; wi 2]; OSlice [wi 1]], RBad).
+Proof. repeat split; vm_compute; reflexivity. Qed.
 
 Theorem C18_history_frame :
   forall (zero : val) (ops : list op) (p : list obj) (i : nat),
@@ -21,6 +41,18 @@ Theorem C18_history_frame :
          (forall o : op, In o ops -> writes o <> Some i) ->
          nth i (run zero p ops) ODead = nth i p ODead.
 Proof. exact run_frame. Qed.
+
+(* non-vacuity: ops addressing only the list (slot 1) leave the caller's slice (slot 0) unchanged *)
+Example C18_history_frame_example :
+  (0 < length [OSlice [wi 1]; OLst [wi 1]])%nat /\
+  (forall o : op, In o [AppendValue 1 (wi 2); RemoveAll 1] -> writes o <> Some 0%nat) /\
+  nth 0 (run (wi 0) [OSlice [wi 1]; OLst [wi 1]] [AppendValue 1 (wi 2); RemoveAll 1]) ODead = OSlice [wi 1].
+Proof.
+  assert (H : forall o : op, In o [AppendValue 1 (wi 2); RemoveAll 1] -> writes o <> Some 0%nat).
+  { intros o [<-|[<-|[]]]; discriminate. }
+  split; [vm_compute; lia|]. split; [exact H|].
+  apply (C18_history_frame (wi 0) _ [OSlice [wi 1]; OLst [wi 1]] 0%nat); [vm_compute; lia|exact H].
+Qed.
 
 Theorem C18_product_independent_of_source :
   forall (zero : val) (p : pool) (o : op) (p' : pool) (r : ret) (ops : list op) (src : nat),
@@ -33,6 +65,12 @@ Theorem C18_product_independent_of_source :
          nth (length p' - 1) (run zero p' ops) ODead = nth (length p' - 1) p' ODead.
 Proof. exact product_independent_of_source. Qed.
 
+(* non-vacuity: a Map built from a Go map; the Go map is then changed and a key deleted, then the Map is changed *)
+Example C18_go_map_example :
+  run (wi 0) [] ex_gomap_ops =
+    [OGoMap [(VStr [97]%Z, wi 9)]; OMap [(VStr [97]%Z, wi 1); (VStr [98]%Z, wi 2); (VStr [99]%Z, wi 3)]].
+Proof. vm_compute; reflexivity. Qed.
+
 Theorem C18_source_independent_of_product :
   forall (zero : val) (p : pool) (o : op) (p' : pool) (r : ret) (ops : list op) (src : nat),
          step zero p o = (p', r) ->
@@ -43,11 +81,24 @@ Theorem C18_source_independent_of_product :
          src <> (length p' - 1)%nat -> nth src (run zero p' ops) ODead = nth src p ODead.
 Proof. exact source_independent_of_product. Qed.
 
+(* non-vacuity: AsArray of a list, then writes through the returned array: the list is unchanged *)
+Example C18_source_independent_of_product_example :
+  step (wi 0) [OLst [wi 1; wi 2]] (AsArray 0 []) = ([OLst [wi 1; wi 2]; OSlice [wi 1; wi 2]], RNew) /\
+  writes (AsArray 0 []) <> Some 0%nat /\
+  nth 0 (run (wi 0) [OLst [wi 1; wi 2]; OSlice [wi 1; wi 2]] [SliceSet 1 0 (wi 9); SliceSet 1 1 (wi 9)]) ODead = OLst [wi 1; wi 2].
+Proof. split; [vm_compute; reflexivity|]. split; [discriminate|vm_compute; reflexivity]. Qed.
+
 Theorem C18_iterator_snapshot_stable :
   forall (zero : val) (ops : list op) (p : list obj) (i : nat) (z : val) 
            (s : list val) (k : nat),
          nth i p ODead = OIter z s k -> exists k' : nat, nth i (run zero p ops) ODead = OIter z s k'.
 Proof. exact iter_snapshot_stable. Qed.
+
+Example C18_iterator_snapshot_stable_example :
+  nth 1 [OLst [wi 1; wi 2]; OIter (wi 0) [wi 1; wi 2] 0] ODead = OIter (wi 0) [wi 1; wi 2] 0 /\
+  nth 1 (run (wi 0) [OLst [wi 1; wi 2]; OIter (wi 0) [wi 1; wi 2] 0] [RemoveAll 0; INext 1; AppendValue 0 (wi 5)]) ODead
+    = OIter (wi 0) [wi 1; wi 2] 1.
+Proof. split; [reflexivity|vm_compute; reflexivity]. Qed.
 
 Theorem C18_self_append :
   forall (zero : val) (p : list obj) (o c : nat),
@@ -59,6 +110,14 @@ Theorem C18_self_append :
          snd (step zero p (AppendValues o o)) = snd (step zero p (AppendValues o c)).
 Proof. exact self_operand_append. Qed.
 
+(* non-vacuity: a list and a separate copy of it (slot 1): appending the list to itself = appending the copy *)
+Example C18_self_append_example :
+  (0 <> 1)%nat /\ (1 < length [OLst [wi 1; wi 2]; OLst [wi 1; wi 2]])%nat /\
+  seq_plain (get [OLst [wi 1; wi 2]; OLst [wi 1; wi 2]] 1) = seq_plain (get [OLst [wi 1; wi 2]; OLst [wi 1; wi 2]] 0) /\
+  nth 0 (fst (step (wi 0) [OLst [wi 1; wi 2]; OLst [wi 1; wi 2]] (AppendValues 0 0))) ODead = OLst [wi 1; wi 2; wi 1; wi 2] /\
+  nth 0 (fst (step (wi 0) [OLst [wi 1; wi 2]; OLst [wi 1; wi 2]] (AppendValues 0 1))) ODead = OLst [wi 1; wi 2; wi 1; wi 2].
+Proof. split; [discriminate|]. split; [vm_compute; lia|]. repeat split; vm_compute; reflexivity. Qed.
+
 Theorem C18_self_insert :
   forall (zero : val) (p : list obj) (o c slot : nat),
          o <> c ->
@@ -68,6 +127,11 @@ Theorem C18_self_insert :
          nth o (fst (step zero p (InsertValues o slot c))) ODead /\
          snd (step zero p (InsertValues o slot o)) = snd (step zero p (InsertValues o slot c)).
 Proof. exact self_operand_insert. Qed.
+
+Example C18_self_insert_example :
+  nth 0 (fst (step (wi 0) [OLst [wi 1; wi 2]; OLst [wi 1; wi 2]] (InsertValues 0 1 0))) ODead = OLst [wi 1; wi 1; wi 2; wi 2] /\
+  nth 0 (fst (step (wi 0) [OLst [wi 1; wi 2]; OLst [wi 1; wi 2]] (InsertValues 0 1 1))) ODead = OLst [wi 1; wi 1; wi 2; wi 2].
+Proof. split; vm_compute; reflexivity. Qed.
 
 Theorem C18_self_set :
   forall (zero : val) (p : list obj) (o c : nat) (i : Z),
@@ -79,6 +143,13 @@ Theorem C18_self_set :
          snd (step zero p (SetValues o i o)) = snd (step zero p (SetValues o i c)).
 Proof. exact self_operand_set. Qed.
 
+Example C18_self_set_example :
+  nth 0 (fst (step (wi 0) [OLst [wi 1; wi 2]; OLst [wi 1; wi 2]] (SetValues 0 1 0))) ODead = OLst [wi 1; wi 2] /\
+  nth 0 (fst (step (wi 0) [OLst [wi 1; wi 2]; OLst [wi 1; wi 2]] (SetValues 0 1 1))) ODead = OLst [wi 1; wi 2] /\
+  snd (step (wi 0) [OLst [wi 1; wi 2]; OLst [wi 1; wi 2]] (SetValues 0 2 0)) = RPanic /\
+  snd (step (wi 0) [OLst [wi 1; wi 2]; OLst [wi 1; wi 2]] (SetValues 0 2 1)) = RPanic.
+Proof. repeat split; vm_compute; reflexivity. Qed.
+
 Theorem C18_self_add :
   forall (zero : val) (p : list obj) (o c : nat),
          o <> c ->
@@ -89,6 +160,12 @@ Theorem C18_self_add :
          snd (step zero p (AddValues o o)) = snd (step zero p (AddValues o c)).
 Proof. exact self_operand_add. Qed.
 
+Example C18_self_add_remove_example :
+  nth 0 (fst (step (wi 0) [OSet 0 [wi 1; wi 2]; OSet 0 [wi 1; wi 2]] (AddValues 0 0))) ODead = OSet 0 [wi 1; wi 2] /\
+  nth 0 (fst (step (wi 0) [OSet 0 [wi 1; wi 2]; OSet 0 [wi 1; wi 2]] (DelValues 0 0))) ODead = OSet 0 [] /\
+  nth 0 (fst (step (wi 0) [OSet 0 [wi 1; wi 2]; OSet 0 [wi 1; wi 2]] (DelValues 0 1))) ODead = OSet 0 [].
+Proof. repeat split; vm_compute; reflexivity. Qed.
+
 Theorem C18_self_remove :
   forall (zero : val) (p : list obj) (o c : nat),
          o <> c ->
@@ -98,6 +175,150 @@ Theorem C18_self_remove :
          nth o (fst (step zero p (DelValues o c))) ODead /\
          snd (step zero p (DelValues o o)) = snd (step zero p (DelValues o c)).
 Proof. exact self_operand_del. Qed.
+
+Theorem C18_new_object_is_appended :
+  forall (zero : val) (p : pool) (o : op) (p' : pool),
+         step zero p o = (p', RNew) -> length p' = S (length p).
+Proof. exact new_object_is_appended. Qed.
+
+Theorem C18_new_object_call_frame :
+  forall (zero : val) (p : pool) (o : op) (p' : pool),
+         step zero p o = (p', RNew) ->
+         forall i : nat, (i < length p)%nat -> writes o <> Some i -> nth i p' ODead = nth i p ODead.
+Proof. exact new_object_call_frame. Qed.
+
+Theorem C18_product_survives_writes_to_old_objects :
+  forall (zero : val) (p : pool) (o : op) (p' : pool) (ops : list op),
+         step zero p o = (p', RNew) ->
+         (forall (o' : op) (w : nat), In o' ops -> writes o' = Some w -> (w < length p)%nat) ->
+         nth (length p) (run zero p' ops) ODead = nth (length p) p' ODead.
+Proof. exact product_survives_writes_to_old_objects. Qed.
+
+Theorem C18_source_survives_writes_to_the_product :
+  forall (zero : val) (p : pool) (o : op) (p' : pool) (ops : list op) (src : nat),
+         step zero p o = (p', RNew) ->
+         (src < length p)%nat ->
+         writes o <> Some src ->
+         (forall o' : op, In o' ops -> writes o' <> Some src) ->
+         nth src (run zero p' ops) ODead = nth src p ODead.
+Proof. exact source_survives_writes_to_the_product. Qed.
+
+Theorem C18_entry_from_array :
+  forall (zero : val) (p : pool) (k : ckind) (src : nat) (l : list val),
+         get p src = OSlice l ->
+         writes (FromArray k src) = None /\
+         step zero p (FromArray k src) =
+         match build zero k l with
+         | Ret x => (p ++ [x], RNew)
+         | Panic => (p, RPanic)
+         | Hang => (p, RHang)
+         end.
+Proof. exact entry_from_array. Qed.
+
+Theorem C18_entry_from_sequence :
+  forall (zero : val) (p : pool) (k : ckind) (src : nat) (okeys l : list val),
+         seq_view (get p src) okeys = Some l ->
+         writes (FromSeq k src okeys) = None /\
+         step zero p (FromSeq k src okeys) =
+         match build zero k l with
+         | Ret x => (p ++ [x], RNew)
+         | Panic => (p, RPanic)
+         | Hang => (p, RHang)
+         end.
+Proof. exact entry_from_sequence. Qed.
+
+Theorem C18_entry_from_map :
+  forall (zero : val) (p : pool) (src : nat) (okeys : list val) (m m' : list (val * val)),
+         get p src = OGoMap m ->
+         reorder m okeys = Some m' ->
+         writes (FromMap CMap src okeys) = None /\
+         writes (FromMap CCatalog src okeys) = None /\
+         step zero p (FromMap CMap src okeys) = (p ++ [OMap m'], RNew) /\
+         step zero p (FromMap CCatalog src okeys) = (p ++ [OCat m'], RNew).
+Proof. exact entry_from_map. Qed.
+
+Theorem C18_entry_as_array :
+  forall (zero : val) (p : pool) (o : nat) (okeys l : list val),
+         seq_view (get p o) okeys = Some l ->
+         writes (AsArray o okeys) = None /\ step zero p (AsArray o okeys) = (p ++ [OSlice l], RNew).
+Proof. exact entry_as_array. Qed.
+
+Theorem C18_entry_get_values :
+  forall (zero : val) (p : pool) (o : nat) (i j : Z) (l : list val),
+         get p o = OLst l \/ get p o = OArr l \/ (exists c : nat, get p o = OSet c l) ->
+         writes (GetValues o i j) = None /\
+         step zero p (GetValues o i j) =
+         match get_values l i j with
+         | Ret r => (p ++ [OArr r], RNew)
+         | Panic => (p, RPanic)
+         | Hang => (p, RHang)
+         end.
+Proof. exact entry_get_values. Qed.
+
+Theorem C18_entry_get_keys :
+  forall (zero : val) (p : pool) (o : nat) (okeys : list val) (m : list (val * val)),
+         get p o = OCat m ->
+         writes (AKeys o okeys) = None /\
+         step zero p (AKeys o okeys) = (p ++ [OLst (map fst m)], RNew).
+Proof. exact entry_get_keys. Qed.
+
+Theorem C18_entry_get_keys_map :
+  forall (zero : val) (p : pool) (o : nat) (okeys : list val) (m m' : list (val * val)),
+         get p o = OMap m ->
+         reorder m okeys = Some m' ->
+         writes (AKeys o okeys) = None /\
+         step zero p (AKeys o okeys) = (p ++ [OArr (map fst m')], RNew).
+Proof. exact entry_get_keys_map. Qed.
+
+Theorem C18_entry_remove_values :
+  forall (zero : val) (p : pool) (o : nat) (i j : Z) (l : list val),
+         get p o = OLst l ->
+         writes (RemoveValues o i j) = Some o /\
+         step zero p (RemoveValues o i j) =
+         match remove_values l i j with
+         | Ret r => (put p o (OLst (snd r)) ++ [OArr (fst r)], RNew)
+         | Panic => (p, RPanic)
+         | Hang => (p, RHang)
+         end.
+Proof. exact entry_remove_values. Qed.
+
+Theorem C18_entry_get_iterator :
+  forall (o : nat) (okeys : list val), writes (GetIterator o okeys) = None.
+Proof. exact entry_get_iterator. Qed.
+
+Theorem C18_entry_class_functions :
+  forall a b : nat,
+         writes (Concat a b) = None /\
+         writes (SAnd a b) = None /\
+         writes (SOr a b) = None /\
+         writes (SSans a b) = None /\
+         writes (SXor a b) = None /\ writes (Merge a b) = None /\ writes (Extract a b) = None.
+Proof. exact entry_class_functions. Qed.
+
+Theorem C18_caller_writes_address_only_the_callers_object :
+  forall (s i : nat) (v k : val),
+         writes (SliceSet s i v) = Some s /\
+         writes (GoMapSet s k v) = Some s /\ writes (GoMapDel s k) = Some s.
+Proof. exact caller_writes_address_only_the_callers_object. Qed.
+
+Theorem C18_slice_written_after_construction :
+  forall (zero : val) (p : pool) (src : nat) (l : list val) (x : obj) (ws : list op),
+         get p src = OSlice l ->
+         (src < length p)%nat ->
+         build zero CList l = Ret x ->
+         (forall o' : op, In o' ws -> exists (i : nat) (v : val), o' = SliceSet src i v) ->
+         nth (length p) (run zero (fst (step zero p (FromArray CList src))) ws) ODead = x.
+Proof. exact slice_written_after_construction. Qed.
+
+(* non-vacuity: the hypotheses of the scenario theorem on a concrete pool *)
+Example C18_slice_written_after_construction_example :
+  get [OSlice [wi 1; wi 2; wi 3]] 0 = OSlice [wi 1; wi 2; wi 3] /\ (0 < length [OSlice [wi 1; wi 2; wi 3]])%nat /\
+  build (wi 0) CList [wi 1; wi 2; wi 3] = Ret (OLst [wi 1; wi 2; wi 3]) /\
+  nth 1 (run (wi 0) (fst (step (wi 0) [OSlice [wi 1; wi 2; wi 3]] (FromArray CList 0)))
+             [SliceSet 0 0 (wi 7); SliceSet 0 1 (wi 8); SliceSet 0 2 (wi 9)]) ODead = OLst [wi 1; wi 2; wi 3] /\
+  nth 0 (run (wi 0) (fst (step (wi 0) [OSlice [wi 1; wi 2; wi 3]] (FromArray CList 0)))
+             [SliceSet 0 0 (wi 7); SliceSet 0 1 (wi 8); SliceSet 0 2 (wi 9)]) ODead = OSlice [wi 7; wi 8; wi 9].
+Proof. split; [reflexivity|]. split; [vm_compute; lia|]. repeat split; vm_compute; reflexivity. Qed.
 
 
 Print Assumptions C18_step_changes_only_its_receiver.
@@ -111,3 +332,19 @@ Print Assumptions C18_self_insert.
 Print Assumptions C18_self_set.
 Print Assumptions C18_self_add.
 Print Assumptions C18_self_remove.
+Print Assumptions C18_new_object_is_appended.
+Print Assumptions C18_new_object_call_frame.
+Print Assumptions C18_product_survives_writes_to_old_objects.
+Print Assumptions C18_source_survives_writes_to_the_product.
+Print Assumptions C18_entry_from_array.
+Print Assumptions C18_entry_from_sequence.
+Print Assumptions C18_entry_from_map.
+Print Assumptions C18_entry_as_array.
+Print Assumptions C18_entry_get_values.
+Print Assumptions C18_entry_get_keys.
+Print Assumptions C18_entry_get_keys_map.
+Print Assumptions C18_entry_remove_values.
+Print Assumptions C18_entry_get_iterator.
+Print Assumptions C18_entry_class_functions.
+Print Assumptions C18_caller_writes_address_only_the_callers_object.
+Print Assumptions C18_slice_written_after_construction.
